@@ -118,6 +118,9 @@ func checkC20(c *Ctx) {
 		}
 		c20One(c, e, f, ps)
 	}
+	// printing through the clients' loggers is printing too
+	loggerPurity(c, "nclient4", "C20-K1")
+	loggerPurity(c, "nclient6", "C20-K1")
 	// K2 roots: methods and extractors; the New* builders draw a fresh transaction id by design
 	det := append([]*ssa.Function{}, ms...)
 	for _, f := range hs {
